@@ -69,6 +69,7 @@ def run(ctx):
                        "shuffles and body shuffles (negated literals after their binders); non-trivial = a permutation that really "
                        "changes the text of a program with a rule body; distinct = distinct permuted texts")
     ctx.assumptions += ["the engine is tied to the Coq semantics by differential testing only"]
+    cc.IMPL_CPU_TIMEOUT = ctx.n(10, 20)   # CPU seconds per evaluation (a non-terminating grounding costs exactly this)
     ctx.prove("C07/Props.v")
     try:
         so.build(ctx)
